@@ -32,7 +32,7 @@ def REQUIRED(tier):
         for mode in ("pretty", "full"):
             req[f"gen:{g}:{mode}"] = 100
     req.update({"helper:get_rand_vars": 300, "helper:get_rand_vars:expected-ValueError": 10, "helper:split_in_two_random": 300,
-                "helper:get_rand_term_templates": 100, "helper:rand_number:full": 300, "like-promise:checked": 400, "like-promise:simplify-multiple-terms": 100})
+                "helper:get_rand_term_templates": 100, "helper:get_rand_term_templates:subclass-exclusions": 100, "helper:rand_number:full": 300, "like-promise:checked": 400, "like-promise:simplify-multiple-terms": 100})
     return req
 
 
@@ -358,6 +358,12 @@ def run(rec, cfg):
             try:
                 t = P.get_rand_term_templates(rng.randint(1, 6), exponent_probability=rng.choice([0, 0.5, 1.0]), common_variables=rng.random() < 0.3)
                 P.get_rand_term_templates(rng.randint(1, 3), exclude_like=t[:2], common_variables=False)
+                # exclusions may be any MathyTermTemplate, e.g. the public subclass MathyProblemTerm
+                # (a term of an existing problem): with only x, y, z to choose from and no exponents,
+                # excluded letters would come back quickly if the exclusion were ignored
+                ex = [P.MathyProblemTerm(variable=v, exponent=None) for v in rng.sample("xyz", 2)]
+                P.get_rand_term_templates(1, exclude_like=ex, common_variables=True, exponent_probability=0)
+                rec.arm("helper:get_rand_term_templates:subclass-exclusions")
             except Exception:
                 pass
             for pretty in (True, False):
